@@ -24,6 +24,7 @@ CONDITIONS = [X("walk", "c20.py", "h_walk", params=pv, timeout=300,
     X("eq-root", "c20.py", "h_eq_root", timeout=200, what="reflexive, symmetric, kind- and value-sensitive, case/order-insensitive; False (no exception) for non-components", bound="3 kinds x 3 value states on both sides x 5 non-components"),
 ] + shards("eq-children", "c20.py", "h_eq_children", {"na": [0, 1, 2, 3], "nb": [0, 1, 2, 3]}, timeout=200,
            what="equal iff multisets of subcomponents agree; symmetric", bound="<=3 children each from 3 child types") + [
+    X("eq-deep", "c20.py", "h_eq_deep", timeout=300, what="depth-3 trees: same-named siblings with identical properties and differently ordered children compare equal; a leaf difference is seen", bound="all child-order flips at two levels x 3 second-sibling variants"),
     X("eq-nested", "c20.py", "h_eq_nested", timeout=200, what="a grandchild difference is seen at the root wherever the branch stands", bound="3 child types, depth 2-3, both sibling orders"),
 ] + shards("copies", "c20.py", "h_copies", {"v1": list(range(10))}, timeout=300,
            what="deepcopy / pickle / serialise+parse copies are equal both ways and serialise identically",
